@@ -21,7 +21,7 @@ import (
 
 // ---------------- key pool (committed PEM files; generated once if absent) ----------------
 
-var keyNames = []string{"rsa1024", "rsa2048a", "rsa2048b", "rsa3072", "rsa4096", "ec224", "ec256a", "ec256b", "ec256c", "ec384", "ec521", "ed25519"}
+var keyNames = []string{"rsa2040", "rsa2050", "rsa1024", "rsa2048a", "rsa2048b", "rsa3072", "rsa4096", "ec224", "ec256a", "ec256b", "ec256c", "ec384", "ec521", "ed25519"}
 
 var (
 	keyPool   = map[string]crypto.Signer{}
@@ -33,6 +33,10 @@ func genKey(name string) (crypto.Signer, error) {
 	switch name {
 	case "rsa1024":
 		return rsa.GenerateKey(rand.Reader, 1024)
+	case "rsa2040":
+		return rsa.GenerateKey(rand.Reader, 2040)
+	case "rsa2050":
+		return rsa.GenerateKey(rand.Reader, 2050)
 	case "rsa2048a", "rsa2048b":
 		return rsa.GenerateKey(rand.Reader, 2048)
 	case "rsa3072":
